@@ -1,46 +1,154 @@
 """Human-written texts for MANIFEST.json (kept next to props.py)."""
-NOTES = ("Technique family: contract-based deductive verification of the real code. exit 0 = all obligations "
-         "discharged; exit 1 = VIOLATION; exit 2 = undecided (lost anchor, unsupported construct, solver limit, "
-         "vacuity guard) and is never an alarm. See DESIGN.md.")
+NOTES = ("Technique family: contract-based deductive verification of the real code. Verus runs on functions extracted "
+         "verbatim from /repo on every run; Kani runs on a scratch copy of the real crate with cfg(kani) child modules. "
+         "exit 0 = all obligations discharged (open known findings are printed as KNOWN-FINDING lines); exit 1 = VIOLATION; "
+         "exit 2 = undecided (lost anchor, unsupported construct, solver limit, vacuity guard) and is never an alarm. "
+         "Quick tier = Verus units + the Kani harnesses that finish within a few minutes; thorough = every harness. "
+         "Kani parallelism: VERIF_JOBS (default 8, ~5-12 GB per port-level harness). See DESIGN.md.")
+
+_K = 'Kani/CBMC'
+_trust_k = ('Trusted: Kani MIR->goto translation, CBMC/CaDiCaL; Kani-side stand-ins for arithmetic leaves guaranteed by the Verus time unit '
+            '(Duration /2, *4, WireTimestamp::from), arbitrary timer durations, recording copies of PortActionIterator::from / Message::serialize; '
+            'test doubles for the public traits; port representation invariant as precondition (re-established by every handler).')
 
 CHECKS = {
+    'C03': dict(
+        engine='engine-k',
+        technique='Kani/CBMC harnesses per host-callable operation from arbitrary valid states (automatic panic/overflow/bounds/assert obligations) + Verus loop invariants for the parser',
+        design_ref='DESIGN.md section 5 (C03) and 7',
+        level_text=('Every contracted operation of the port/instance API is executed by CBMC from an arbitrary state satisfying the port invariant with arbitrary inputs; '
+                    'CBMC generates and discharges the no-panic obligations (arithmetic and shift overflow irrespective of build profile, bounds, unwrap/expect, '
+                    'assert!/debug_assert!/unreachable!, ArrayVec capacity) and each handler re-establishes the invariant, so panic-freedom holds after every call order by induction. '
+                    'The unbounded part of frame parsing (TLV loop, declared length) is the Verus framing unit, where debug assertions are proof obligations.'),
+        level_note=_trust_k + ' Not covered: Kalman matrix updates; Time +- Duration on wire values below 2^48 ns (observation in DESIGN 7).',
+    ),
+    'C04': dict(
+        engine='engine-k + engine-v',
+        technique='Kani/CBMC loop-free full-domain harnesses against an independent Clause-13 reader/writer; Verus loop invariant for the TLV set and a declared-length specification of framing',
+        design_ref='DESIGN.md section 5, C04',
+        level_text=('Header, every body type and every enumeration: the real decode/encode functions compared field by field with an independently written '
+                    'Clause 13 spec for ALL byte strings of the fixed size (loop-free, complete), incl. decode-encode-decode identity and "writes exactly content_size bytes". '
+                    'Framing and TLV set: Verus, unbounded buffer length: Message::deserialize equals a specification that by construction only looks at the first messageLength octets.'),
+        level_note='Trusted: Kani/CBMC, Verus/Z3; the independent spec functions are the oracle; Verus framing assumes the header/body contracts that the Kani harnesses of the same check prove.',
+    ),
+    'C05': dict(
+        engine='engine-k', technique='Kani/CBMC full-domain harnesses: compare = IEEE Fig. 34/35, decision = Fig. 33, application = Tables 30-33, written as independent spec functions',
+        design_ref='DESIGN.md section 5, C05',
+        level_text=('ComparisonDataset::compare equals an independent implementation of Figures 34/35 for every pair of data sets (antisymmetric; transitive on consistent sets); '
+                    'calculate_recommended_state equals Figure 33 with the documented deviations for every own data set, Ebest, Erbest and state; '
+                    'set_recommended_state equals Tables 30-33 for every prior state, decision code, slave-only/master-only/multiport setting, incl. data set updates.'),
+        level_note=_trust_k + ' The composition over the loops of PtpInstanceState::bmca is a paper step over the three contracts.',
+    ),
+    'C06': dict(
+        engine='engine-k', technique='Kani/CBMC: representation invariant of ForeignMasterList + per-operation contracts; qualification rule over all sequence-id pairs',
+        design_ref='DESIGN.md section 5, C06',
+        level_text=('ForeignMasterList::valid() (non-empty records, ages within 4 intervals, stepsRemoved < 255, sender != own clock, one record per sender) is preserved by '
+                    'register / step_age / take_qualified / take_best; a message is handed out only from a record with >= 2 stored messages; the qualification rule equals the spec '
+                    'for every (stored, new) sequence-id pair incl. wrap-around. Open finding: a repeated sequence id is accepted.'),
+        level_note=_trust_k + ' Bounded table generator (<= 2 records x <= 2 messages, fixed payload); capacity case separate; expiry/retention over time are paper steps from the per-step contracts.',
+    ),
+    'C07': dict(
+        engine='engine-k', technique='Kani/CBMC frame contracts: complete port+instance view unchanged and no action for every rejected frame class',
+        design_ref='DESIGN.md section 5, C07',
+        level_text=('For every rejected class (wrong PTP version, undecodable, foreign domain/sdoId, Announce from an unacceptable clock or with the port\'s own identity, '
+                    'Sync/Follow_Up/Delay_Resp not from the selected parent or answering another requester, slave-side messages on a non-slave port, event messages on the general channel) '
+                    'the handler leaves the complete view of port and instance equal to the pre-state and yields no action; two-run non-interference follows by determinism.'),
+        level_note=_trust_k,
+    ),
+    'C08': dict(
+        engine='engine-k', technique='Kani/CBMC: state guards of every emitter, role rules of the decision application, filter hand-over on leaving slave',
+        design_ref='DESIGN.md section 5, C08',
+        level_text=('Sync/Follow_Up/Delay_Resp/Announce are emitted only from Master, E2E Delay_Req only from Slave (frame otherwise); master-only never Slave, slave-only never Master after '
+                    'any decision or receipt timeout; S1 only for the port that received Ebest; leaving Slave replaces the filter and demobilizes the old one exactly once.'),
+        level_note=_trust_k + ' "At most one slave port" is the paper composition of the per-port contracts.',
+    ),
+    'C09': dict(
+        engine='engine-k + engine-v', technique='Kani/CBMC: each slave handler equals a specification transition function pairing by sequence id; measurement arithmetic via Verus time contracts',
+        design_ref='DESIGN.md section 5, C09',
+        level_text=('handle_sync (one/two-step), handle_follow_up, handle_delay_timestamp, handle_delay_resp, send_e2e_delay_request: post-state == spec_step(pre-state, input) on the complete view, '
+                    'and the measurement handed to the filter equals the IEEE 11.2/11.3 formula on 2^-32 ns bit patterns of exactly one exchange (same sequence id), consumed once; '
+                    'induction over handler calls covers every reordering, duplication and loss.'),
+        level_note=_trust_k,
+    ),
+    'C10': dict(
+        engine='engine-k + engine-v', technique='Kani/CBMC: emitted messages equal the spec field by field; sequence generator +1 mod 2^16; Verus lemma for timestamp + correction',
+        design_ref='DESIGN.md section 5, C10',
+        level_text=('Sync, Follow_Up, Delay_Resp, Pdelay_Resp, Pdelay_Resp_Follow_Up: the message handed to the serializer has the type, sequence id, identities, domain, sdoId, '
+                    'timestamp and correction the spec prescribes; frame length = wire size <= 1024; TimestampContext carries the id; every action list has <= 1 event send; '
+                    'SequenceIdGenerator::generate for all 65536 states; Message::serialize layout (C04).'),
+        level_note=_trust_k,
+    ),
+    'C11': dict(
+        engine='engine-k', technique='Kani/CBMC: Announce contents = data sets; data-set update contracts (S1 on parent Announce, M1/M2/S1 by BMCA)',
+        design_ref='DESIGN.md section 5, C11',
+        level_text=('Message::announce via send_announce carries every named data-set member and flag; handle_announce from the parent sets the data sets to the Announce contents '
+                    '(stepsRemoved + 1) in one write acquisition; set_recommended_state M1/M2 => own attributes and stepsRemoved 0, S1 => parent\'s.'),
+        level_note=_trust_k,
+    ),
+    'C12': dict(
+        engine='engine-k', technique='Kani/CBMC per-function timer contracts (ghost view needs(state)); temporal conclusion not machine-checked',
+        design_ref='DESIGN.md section 5, C12',
+        level_text=('Every operation that changes the port state requests the timers the new state depends on; every periodic sender re-arms its own timer when it emits; '
+                    'every accepted Announce re-arms the receipt timer. Safety core only.'),
+        level_note=_trust_k + ' The conclusion "within a bounded number of intervals ... indefinitely" is a paper argument under host obedience.',
+    ),
+    'C13': dict(
+        engine='engine-k', technique='Kani/CBMC IEEE-754 bit-precise leaf contracts of the servo (clamp, change_frequency, steer, demobilize, BasicFilter step)',
+        design_ref='DESIGN.md section 5, C13',
+        level_text=('From any NaN-free estimator state and any configuration with positive finite bounds: the frequency handed to Clock::set_frequency is finite and within +-max_freq_offset; '
+                    'the clock is stepped only when |offset| >= step threshold and then by -offset; demobilize issues at most one command; BasicFilter commands are finite.'),
+        level_note='Trusted: Kani/CBMC float model (bit-precise for + - * / comparisons); matrix updates stubbed; NaN-freedom over whole trajectories is an assumption.',
+    ),
+    'C14': dict(
+        engine='engine-k + engine-v', technique='Kani/CBMC: peer-delay handlers equal a specification transition function incl. second responder -> Faulty',
+        design_ref='DESIGN.md section 5, C14',
+        level_text=('send_p2p_delay_request, handle_pdelay_timestamp, handle_peer_delay_response, handle_peer_delay_response_follow_up: post == spec_step(pre, input); link delay = '
+                    '((t4-t1)-(t3-t2))/2 of one request and one responder; a second responder => Faulty, its timestamps not stored, filter replaced and demobilized once; '
+                    'recovery only through a completed single-responder exchange. Open findings: Faulty is also left by the receipt timeout and by the multiport rule.'),
+        level_note=_trust_k,
+    ),
+    'C15': dict(
+        engine='engine-k + engine-v', technique='Kani/CBMC with an arbitrary conforming TLV provider (bounded K=2) + Verus TLV iterator contract',
+        design_ref='DESIGN.md section 5, C15',
+        level_text=('send_announce with any provider honouring size <= max_size: forwards only parent TLVs, drops PATH_TRACE when it adds its own, asks the provider with exactly the remaining room, '
+                    'frame length = 64 + own path TLV + forwarded sizes <= 1024, never panics; path trace stored / looping Announce discarded without effect (bounded TLV).'),
+        level_note=_trust_k + ' Bounded: K=2 TLVs per call, one PATH_TRACE TLV with <= 2 identities. Daemon-side forwarder is an assumed contract.',
+    ),
     'C16': dict(
         engine='engine-v',
         technique='Verus deductive verification (requires/ensures on verbatim-extracted time arithmetic, exec composition lemmas)',
         design_ref='DESIGN.md section 5, C16',
-        level_text=('Every Time/Duration/TimeInterval/WireTimestamp conversion and operator in /repo is extracted verbatim '
-                    'and verified by Verus against an exact integer contract on the fixed-point bit pattern, for all inputs '
-                    '(mathematical integers, no bound); the property clauses are exec compositions of the contracted functions '
-                    '(round trip to 2^-16 ns, t+d-d, a-b+b, interval round trip, floor rounding) so callee preconditions '
-                    '(no silent wrap) are checked at each call.'),
-        level_note=('Trusted: Verus/Z3; assumed contracts for the fixed crate operations (verus/shim/fixed.rs, external_body); '
-                    'f64->fixed conversions uninterpreted; log-interval clause decided by executing all 256 inputs (labelled enumerated).'),
+        level_text=('Every Time/Duration/TimeInterval/WireTimestamp conversion and operator in /repo is extracted verbatim and verified by Verus against an exact integer contract on the fixed-point '
+                    'bit pattern, for all inputs (mathematical integers, no bound); the property clauses are exec compositions of the contracted functions, so callee preconditions (no silent wrap) are checked at each call.'),
+        level_note=('Trusted: Verus/Z3; assumed contracts for the fixed crate operations (external_body); f64->fixed uninterpreted; log-interval clause decided by executing all inputs (labelled enumerated).'),
+    ),
+    'C17': dict(
+        engine='engine-k', technique='Kani/CBMC over a lock implementation that asserts acquisition depth 0 and counts acquisitions',
+        design_ref='DESIGN.md section 5, C17',
+        level_text=('Every port and instance operation is verified over ChkLock: no operation requests the instance-state lock while holding it, from every valid state and input; '
+                    'each data-set update is a single write acquisition, each getter a single read acquisition, the BMCA application performs none.'),
+        level_note=_trust_k + ' Mutual exclusion itself is std::sync::RwLock/RefCell; no thread interleaving is explored.',
     ),
     'C18': dict(
         engine='engine-v',
         technique='Verus deductive verification of the verbatim-extracted OverlayClock against an affine-map specification (continuity, exact jump, returned time = reading)',
         design_ref='DESIGN.md section 5, C18',
-        level_text=('OverlayClock::{time_from_underlying, set_frequency, step_clock} extracted verbatim and verified for every underlying clock '
-                    'reading in the PTP range, every shift, anchor and ppm: reading(r) = r + shift + fixed((r-last_sync)*ppm)/10^6; '
-                    'set_frequency is continuous at the instant of the call and returns that reading; step_clock moves the reading by '
-                    'exactly the requested offset and returns the new reading. One step is one call, so sequences follow by induction over the invariant.'),
+        level_text=('OverlayClock::{time_from_underlying, set_frequency, step_clock} extracted verbatim and verified for every underlying reading in the PTP range, every shift, anchor and ppm: '
+                    'reading(r) = r + shift + fixed((r-last_sync)*ppm)/10^6; set_frequency is continuous at the instant of the call and returns that reading; step_clock moves the reading by exactly '
+                    'the requested offset and returns the new reading. One step is one call, so sequences follow by induction over the invariant.'),
         level_note='Trusted: Verus/Z3; fixed-crate shim contracts; f64 operations uninterpreted; underlying clock within the PTP range.',
     ),
-    'C04': dict(
-        engine='engine-k',
-        technique='Kani/CBMC loop-free full-domain harnesses against an independent Clause-13 reader/writer; Verus loop invariant for the TLV set',
-        design_ref='DESIGN.md section 5, C04',
-        level_text=('Header and body codecs: decode/encode of the real functions compared field by field with an independently '
-                    'written Clause 13 spec for ALL byte strings of the fixed size (loop-free, complete); decode-encode-decode identity.'),
-        level_note='Trusted: Kani/CBMC; the independent spec functions in kani/src/*.rs are the oracle.',
+    'C19': dict(
+        engine='engine-k + engine-v', technique='Kani/CBMC snapshot-equals-live-state contracts + Verus on the verbatim format_bool! macro',
+        design_ref='DESIGN.md section 5, C19',
+        level_text=('Two clauses only: (a) every data set and port data set exposed for observation equals the live value, one read acquisition per getter; (b) boolean metrics are exported as 1/0. '
+                    'The JSON hop, metric name/value association, exposition syntax and Content-Length are NOT decided.'),
+        level_note=_trust_k + ' String/fmt/serde reasoning is outside both verifiers.',
     ),
 }
 
-_later = 'claimed in DESIGN.md; machinery not built yet in this revision (will move to checks when its harnesses land)'
 NOT_APPLICABLE = {
-    'C01': 'network-wide convergence/liveness over N instances, channels, timers and schedules: no per-function contract, data-structure invariant or lemma over them expresses it; the per-instance ingredients are proved under C05/C08',
+    'C01': 'network-wide convergence/liveness over N instances, channels, timers and schedules: no per-function contract, data-structure invariant or lemma over them expresses it; the per-instance ingredients (comparison, decision, application, roles) are proved under C05/C08',
     'C02': 'closed-loop convergence and steady-state error of a floating-point Kalman servo over infinite measurement histories: asymptotic, float-valued, whole-history; neither Verus nor Kani has a usable theory',
     'C20': 'process-level liveness of a tokio TCP accept loop under client misbehaviour: async socket I/O and scheduling are outside any contract reachable by Verus/Kani',
-    'C03': _later, 'C05': _later, 'C06': _later, 'C07': _later, 'C08': _later, 'C09': _later, 'C10': _later,
-    'C11': _later, 'C12': _later, 'C13': _later, 'C14': _later, 'C15': _later, 'C17': _later, 'C19': _later,
 }
